@@ -1,7 +1,188 @@
 import Dhcp.Driver.Hex
-/- Line-protocol operations of the `V4Acc` family (stub until the model lands). -/
-namespace Dhcp.Driver
+import Dhcp.Driver.V4
+import Dhcp.V4.Values
+/-
+  Line-protocol operations of the `V4Acc` family (typed accessors, C17).
 
-def stepV4Acc (_op : String) (_args : List String) : Option String := none
+    v4acc <Accessor> <present> <valuehex> <def> <decoys>
+        present: 0 = key absent, 1 = key holds <valuehex> (`-` = empty non-nil
+        slice), 2 = key holds a nil slice; <def> = default duration in ns
+        (used by the three lease-time accessors); <decoys> = `-` or
+        `code:hex,…` other options in the map (a decoy under the accessor's own
+        code is dropped).
+      → `ok <canonical result>`
+    v4setget <Constructor> <arg> <def>
+        builds the option with the typed constructor, `UpdateOption`s it into
+        an empty packet and reads it back with the matching accessor
+      → `ok raw=<nil|hex> get=<canonical result>` | `panic`
+
+  Canonical results: address `nil|hex`; lists `nil`, `[]` (empty non-nil) or
+  comma separated elements; strings as hex; durations in integer ns;
+  `(value, bool)` pairs as `<value> true|false`; `(uint16, error)` as the
+  number or `err`; routes `desthex/width>routerhex`; relay sub-options
+  `{code:hex,…}` sorted by code; VIVC `entid:hex`.
+-/
+namespace Dhcp.Driver
+open Dhcp Dhcp.V4
+
+def showList {α} (sh : α → String) : Option (List α) → String
+  | none => "nil"
+  | some [] => "[]"
+  | some xs => ",".intercalate (xs.map sh)
+
+def showBool (b : Bool) : String := if b then "true" else "false"
+
+def showRoute (r : Route) : String := s!"{hex r.dest}/{r.width}>{hexOpt r.router}"
+def showVIVC (i : VIVCId) : String := s!"{i.entID}:{hex i.data}"
+def showRelay : Option Opts → String
+  | none => "nil"
+  | some o => "{" ++ ",".intercalate (o.toList.map (fun (k, v) => s!"{k.toNat}:{hex v}")) ++ "}"
+def showResNat : Res Nat → String
+  | .ok n => toString n
+  | .err => "err"
+  | .panic => "panic"
+
+/-- accessor name ↦ (option code it is fed through, rendering of its result) -/
+def accessors : List (String × UInt8 × (GOpts → Int → String)) :=
+  [ ("BroadcastAddress", Code.broadcastAddress, fun o _ => hexOpt (Acc.broadcastAddress o)),
+    ("RequestedIPAddress", Code.requestedIPAddress, fun o _ => hexOpt (Acc.requestedIPAddress o)),
+    ("ServerIdentifier", Code.serverIdentifier, fun o _ => hexOpt (Acc.serverIdentifier o)),
+    ("Router", Code.router, fun o _ => showList hexOpt (Acc.router o)),
+    ("NTPServers", Code.ntpServers, fun o _ => showList hexOpt (Acc.ntpServers o)),
+    ("NetBIOSNameServers", Code.netBIOSNameServers, fun o _ => showList hexOpt (Acc.netBIOSNameServers o)),
+    ("DNS", Code.dns, fun o _ => showList hexOpt (Acc.dns o)),
+    ("DomainName", Code.domainName, fun o _ => hex (Acc.domainName o)),
+    ("HostName", Code.hostName, fun o _ => hex (Acc.hostName o)),
+    ("RootPath", Code.rootPath, fun o _ => hex (Acc.rootPath o)),
+    ("BootFileNameOption", Code.bootfileName, fun o _ => hex (Acc.bootFileNameOption o)),
+    ("TFTPServerName", Code.tftpServerName, fun o _ => hex (Acc.tftpServerName o)),
+    ("ClassIdentifier", Code.classIdentifier, fun o _ => hex (Acc.classIdentifier o)),
+    ("Message", Code.message, fun o _ => hex (Acc.message o)),
+    ("IPAddressLeaseTime", Code.ipAddressLeaseTime, fun o d => toString (Acc.ipAddressLeaseTime o d)),
+    ("IPAddressRenewalTime", Code.renewalTime, fun o d => toString (Acc.ipAddressRenewalTime o d)),
+    ("IPAddressRebindingTime", Code.rebindingTime, fun o d => toString (Acc.ipAddressRebindingTime o d)),
+    ("IPv6OnlyPreferred", Code.ipv6OnlyPreferred, fun o _ =>
+        let (d, b) := Acc.ipv6OnlyPreferred o; s!"{d} {showBool b}"),
+    ("MaxMessageSize", Code.maxMessageSize, fun o _ => showResNat (Acc.maxMessageSize o)),
+    ("AutoConfigure", Code.autoConfigure, fun o _ =>
+        let (v, b) := Acc.autoConfigure o; s!"{v.toNat} {showBool b}"),
+    ("MessageType", Code.messageType, fun o _ => toString (Acc.messageType o).toNat),
+    ("SubnetMask", Code.subnetMask, fun o _ => hexOpt (Acc.subnetMask o)),
+    ("ClasslessStaticRoute", Code.classlessStaticRoute, fun o _ => showList showRoute (Acc.classlessStaticRoute o)),
+    ("ParameterRequestList", Code.parameterRequestList, fun o _ =>
+        showList (fun c => toString c.toNat) (Acc.parameterRequestList o)),
+    ("RelayAgentInfo", Code.relayAgentInfo, fun o _ => showRelay (Acc.relayAgentInfo o)),
+    ("UserClass", Code.userClass, fun o _ => showList hex (Acc.userClass o)),
+    ("VIVC", Code.vivc, fun o _ => showList showVIVC (Acc.vivc o)),
+    ("ClientArch", Code.clientArch, fun o _ => showList toString (Acc.clientArch o)) ]
+
+def findAcc (name : String) : Option (UInt8 × (GOpts → Int → String)) :=
+  (accessors.find? (fun e => e.1 == name)).map (·.2)
+
+def parseDecoys (s : String) (own : UInt8) : Option GOpts :=
+  if s == "-" then some GOpts.empty
+  else
+    (s.splitOn ",").foldlM (fun (o : GOpts) t =>
+      match t.splitOn ":" with
+      | [k, v] => do
+        let k ← k.toNat?
+        let v ← unhexOpt v
+        pure (if UInt8.ofNat k = own then o else o.update (UInt8.ofNat k) v)
+      | _ => none) GOpts.empty
+
+/-! arguments of the constructors -/
+
+def parseListOf {α} (p : String → Option α) (s : String) : Option (List α) :=
+  if s == "[]" then some [] else (s.splitOn ",").mapM p
+
+def parseRouteArg (s : String) : Option RouteArg :=
+  match s.splitOn ":" with
+  | [w, d, r] => do
+    let w ← w.toNat?
+    let d ← unhexOpt d
+    let r ← unhexOpt r
+    pure ⟨d, w, r⟩
+  | _ => none
+
+def parseVIVC (s : String) : Option VIVCId :=
+  match s.splitOn ":" with
+  | [e, d] => do
+    let e ← e.toNat?
+    let d ← unhex d
+    pure ⟨e, d⟩
+  | _ => none
+
+def parseSub (s : String) : Option (UInt8 × Bytes) :=
+  match s.splitOn ":" with
+  | [k, v] => do
+    let k ← k.toNat?
+    let v ← unhex v
+    pure (UInt8.ofNat k, v)
+  | _ => none
+
+/-- constructor name ↦ (matching accessor, model of `Opt…(arg).Value.ToBytes()`) -/
+def constructors : List (String × String × (String → Option (Res GoBytes))) :=
+  let ip := fun s => (unhexOpt s).map (fun ip => Res.ok (ipToBytes ip))
+  let ips := fun s => (parseListOf unhexOpt s).map (fun l => Res.ok (ipsToBytes l))
+  let dur := fun (s : String) => s.toInt?.map (fun d => Res.ok (durationToBytes d))
+  let str := fun s => (unhex s).map (fun b => Res.ok (stringToBytes b))
+  [ ("OptBroadcastAddress", "BroadcastAddress", ip),
+    ("OptRequestedIPAddress", "RequestedIPAddress", ip),
+    ("OptServerIdentifier", "ServerIdentifier", ip),
+    ("OptRouter", "Router", ips),
+    ("OptNTPServers", "NTPServers", ips),
+    ("OptNetBIOSNameServers", "NetBIOSNameServers", ips),
+    ("OptDNS", "DNS", ips),
+    ("OptIPAddressLeaseTime", "IPAddressLeaseTime", dur),
+    ("OptRenewTimeValue", "IPAddressRenewalTime", dur),
+    ("OptRebindingTimeValue", "IPAddressRebindingTime", dur),
+    ("OptIPv6OnlyPreferred", "IPv6OnlyPreferred", dur),
+    ("OptDomainName", "DomainName", str),
+    ("OptHostName", "HostName", str),
+    ("OptRootPath", "RootPath", str),
+    ("OptBootFileName", "BootFileNameOption", str),
+    ("OptTFTPServerName", "TFTPServerName", str),
+    ("OptClassIdentifier", "ClassIdentifier", str),
+    ("OptMessage", "Message", str),
+    ("OptUserClass", "UserClass", str),
+    ("OptRFC3004UserClass", "UserClass", fun s =>
+        (parseListOf unhex s).map (fun l => Res.ok (stringsToBytes l))),
+    ("OptMaxMessageSize", "MaxMessageSize", fun s => s.toNat?.map (fun n => Res.ok (uint16ToBytes n))),
+    ("OptAutoConfigure", "AutoConfigure", fun s => s.toNat?.map (fun n => Res.ok (some [UInt8.ofNat n]))),
+    ("OptMessageType", "MessageType", fun s => s.toNat?.map (fun n => Res.ok (some [UInt8.ofNat n]))),
+    ("OptSubnetMask", "SubnetMask", fun s => (unhexOpt s).map (fun m => Res.ok (maskToBytes m))),
+    ("OptClasslessStaticRoute", "ClasslessStaticRoute", fun s =>
+        (parseListOf parseRouteArg s).map routesToBytes),
+    ("OptParameterRequestList", "ParameterRequestList", fun s =>
+        (parseListOf (fun t => t.toNat?.map UInt8.ofNat) s).map (fun l => Res.ok (codesToBytes l))),
+    ("OptRelayAgentInfo", "RelayAgentInfo", fun s =>
+        (parseListOf parseSub s).map (fun l => Res.ok (relayToBytes (Opts.ofList l)))),
+    ("OptVIVC", "VIVC", fun s => (parseListOf parseVIVC s).map (fun l => Res.ok (vivcToBytes l))),
+    ("OptClientArch", "ClientArch", fun s =>
+        (parseListOf String.toNat? s).map (fun l => Res.ok (archsToBytes l))) ]
+
+def stepV4Acc (op : String) (args : List String) : Option String :=
+  match op, args with
+  | "v4acc", [name, present, h, dflt, decoys] => do
+    let (code, render) ← findAcc name
+    let v ← unhex h
+    let d ← dflt.toInt?
+    let base ← parseDecoys decoys code
+    let o ← match present with
+      | "0" => some base
+      | "1" => some (base.update code (some v))
+      | "2" => some (base.update code none)
+      | _ => none
+    pure ("ok " ++ render o d)
+  | "v4setget", [ctor, arg, dflt] => do
+    let (_, acc, toBytes) ← constructors.find? (fun e => e.1 == ctor)
+    let (code, render) ← findAcc acc
+    let d ← dflt.toInt?
+    let r ← toBytes arg
+    pure (match r with
+      | .ok raw => s!"ok raw={hexOpt raw} get={render (GOpts.empty.update code raw) d}"
+      | .err => "err"
+      | .panic => "panic")
+  | _, _ => none
 
 end Dhcp.Driver
